@@ -1076,14 +1076,18 @@ func parseLinkDestination(r *inlineByteReader) linkDestination {
 			case c == '(':
 				parenCount++
 			case c == ')':
-				parenCount--
-				if parenCount < 0 {
+				if parenCount == 0 {
 					break loop
 				}
+				parenCount--
 			}
 			if !r.next() {
 				break
 			}
+		}
+		if parenCount != 0 {
+			// Parentheses must be balanced.
+			return linkDestination{span: NullSpan(), text: NullSpan()}
 		}
 		span := Span{Start: start, End: r.pos}
 		return linkDestination{span: span, text: span}
